@@ -8,24 +8,35 @@
 
 using namespace Qentem;
 
+// an integer too large for the oracle's small numbers: its kind, sign and decimal digits (code units), exact
+static void big_int(std::string &o, const char *kind, int neg, const std::string &digits) {
+    o += std::string("{\"t\":\"N\",\"k\":\"big\",\"m\":0,\"kind\":\"") + kind + "\",\"neg\":" + std::to_string(neg) + ",\"d\":[";
+    for (size_t i = 0; i < digits.size(); ++i) o += (i ? "," : "") + std::to_string((int)digits[i]);
+    o += "]}";
+}
 template <typename Ch>
 static void jdoc(const Value<Ch> &v, std::string &o) {
     using U = typename std::make_unsigned<Ch>::type;
-    switch (v.Type()) {
+    ValueType t = v.Type();
+    if (t == ValueType::ValuePtr)   // a pointer-to-value member stands for what it points to (every accessor below forwards)
+        t = v.IsObject() ? ValueType::Object : v.IsArray() ? ValueType::Array : v.IsString() ? ValueType::String : v.IsUInt64() ? ValueType::UIntLong
+            : v.IsInt64() ? ValueType::IntLong : v.IsDouble() ? ValueType::Double : v.IsTrue() ? ValueType::True : v.IsFalse() ? ValueType::False
+            : v.IsNull() ? ValueType::Null : ValueType::Undefined;
+    switch (t) {
         case ValueType::Undefined: o += "{\"t\":\"U\"}"; break;
         case ValueType::Null: o += "{\"t\":\"Z\"}"; break;
         case ValueType::True: o += "{\"t\":\"T\"}"; break;
         case ValueType::False: o += "{\"t\":\"F\"}"; break;
         case ValueType::UIntLong: {
             SizeT64 x = v.GetUInt64();
-            if (x < (1ULL << 28)) o += "{\"t\":\"N\",\"k\":\"u64\",\"m\":" + std::to_string((long long)x * 2) + "}";
-            else o += "{\"t\":\"N\",\"k\":\"approx\",\"m\":0}";
+            if (x < 40000000ULL) o += "{\"t\":\"N\",\"k\":\"u64\",\"m\":" + std::to_string((long long)x * 2) + "}";
+            else big_int(o, "u64", 0, std::to_string((unsigned long long)x));
             break;
         }
         case ValueType::IntLong: {
             SizeT64I x = v.GetInt64();
-            if (x > -(1LL << 28) && x < (1LL << 28)) o += "{\"t\":\"N\",\"k\":\"i64\",\"m\":" + std::to_string((long long)x * 2) + "}";
-            else o += "{\"t\":\"N\",\"k\":\"approx\",\"m\":0}";
+            if (x > -40000000LL && x < 40000000LL) o += "{\"t\":\"N\",\"k\":\"i64\",\"m\":" + std::to_string((long long)x * 2) + "}";
+            else big_int(o, "i64", x < 0 ? 1 : 0, x < 0 ? std::to_string(0ULL - (unsigned long long)x) : std::to_string((unsigned long long)x));
             break;
         }
         case ValueType::Double: {
@@ -149,7 +160,8 @@ struct Gen {
     }
     void num(std::vector<long> &t) {
         static const char *N[] = {"0", "1", "7", "12", "120", "-3", "-0", "2.5", "-2.5", "0.5", "10.25", "1e2", "1E2", "1e+2", "25e-1", "-5E-1", "1.5e3", "0.0", "100", "9007199254740993",
-                                  "18446744073709551615", "-9223372036854775807", "0e0", "0.0e5", "1.000", "3.25e0", "123456.5"};
+                                  "18446744073709551615", "-9223372036854775807", "-9223372036854775808", "9223372036854775807", "9223372036854775808", "18446744073709551614", "18446744073709551616",
+                                  "-9223372036854775809", "4294967296", "-2147483649", "99999999999999999999", "0e0", "0.0e5", "1.000", "3.25e0", "123456.5"};
         const char *s = N[rng.below(sizeof(N) / sizeof(N[0]))];
         for (; *s; ++s) t.push_back(*s);
     }
@@ -231,6 +243,34 @@ static void doc_family(FILE *out, vf::Rng &rng, int w, bool families) {
 }
 
 // ---------------- stringify (C08) -------------------------------------------------------------
+// values that pointer-to-value members refer to (they outlive every tree)
+template <typename Ch>
+static const Value<Ch> *pointee(vf::Rng &rng, bool release = false) {
+    static Value<Ch> pool[8];
+    static bool      init = false;
+    if (release) {   // end of the run: give the pool back before the ledger is read
+        for (auto &x : pool) x.Reset();
+        init = false;
+        return nullptr;
+    }
+    if (!init) {
+        init = true;
+        const Ch s[] = {Ch('p'), Ch('"'), Ch('q'), Ch(0)};
+        pool[0] = (const Ch *)s;
+        pool[1] = (SizeT64)7;
+        pool[2] = (SizeT64I)-3;
+        pool[3] = 2.5;
+        pool[4] = true;
+        pool[5] = nullptr;
+        pool[6] = typename Value<Ch>::ArrayT();
+        pool[6] += (SizeT64)1;
+        pool[6] += false;
+        pool[7] = typename Value<Ch>::ObjectT();
+        const Ch k[] = {Ch('k'), Ch(0)};
+        pool[7][(const Ch *)k] = (SizeT64)1;
+    }
+    return &pool[rng.below(8)];
+}
 template <typename Ch>
 static Value<Ch> rnd_tree(vf::Rng &rng, int depth) {
     Value<Ch> v;
@@ -257,7 +297,10 @@ static Value<Ch> rnd_tree(vf::Rng &rng, int depth) {
         case 8: case 9: {
             v = typename Value<Ch>::ArrayT();
             int n = (int)rng.below(4);
-            for (int i = 0; i < n; ++i) v += rnd_tree<Ch>(rng, depth - 1);
+            for (int i = 0; i < n; ++i) {
+                if (rng.below(6) == 0) v.AddPointerToValue(pointee<Ch>(rng));   // a pointer-to-value item: stringified as what it points to
+                else v += rnd_tree<Ch>(rng, depth - 1);
+            }
             if (n > 0 && rng.below(3) == 0) v.RemoveIndex((SizeT)rng.below((uint32_t)n));   // an Undefined slot (omitted in the text)
             break;
         }
@@ -269,7 +312,8 @@ static Value<Ch> rnd_tree(vf::Rng &rng, int depth) {
                 const char *k = K[rng.below(10)];
                 std::basic_string<Ch> ks;
                 for (const char *p = k; *p; ++p) ks.push_back((Ch)(unsigned char)*p);
-                v[String<Ch>((const Ch *)ks.data(), (SizeT)ks.size())] = rnd_tree<Ch>(rng, depth - 1);
+                if (rng.below(6) == 0) v[String<Ch>((const Ch *)ks.data(), (SizeT)ks.size())].SetPointerToValue(pointee<Ch>(rng));
+                else v[String<Ch>((const Ch *)ks.data(), (SizeT)ks.size())] = rnd_tree<Ch>(rng, depth - 1);
             }
             if (n > 0 && rng.below(3) == 0) v.RemoveIndex((SizeT)rng.below((uint32_t)v.Size()));   // removed member
             if (rng.below(5) == 0) { const Ch un[] = {Ch('u'), Ch('n'), Ch(0)}; v[(const Ch *)un]; }                                                        // a member whose value is Undefined (omitted)
@@ -366,6 +410,9 @@ int main(int argc, char **argv) {
         long    n   = atol(argv[3]);
         FILE   *out = fopen(argv[4], "w");
         vf::g_trace = out;
+        pointee<char>(rng);       // the shared pointees exist before the first case's ledger scope
+        pointee<char16_t>(rng);
+        pointee<char32_t>(rng);
         for (long i = 0; i < n; ++i) {
             vf::begin_case(i);
             switch (i % 3) {
@@ -376,6 +423,10 @@ int main(int argc, char **argv) {
         }
         fclose(out);
         vf::g_trace = nullptr;
+        vf::scope_end(1);   // (C16: the last case's ledger scope ends before the shared pool goes)
+        pointee<char>(rng, true);
+        pointee<char16_t>(rng, true);
+        pointee<char32_t>(rng, true);
         printf("EVENTS %ld\n", g_events);
         vf::Ledger &l = vf::ledger();
         printf("LEDGER allocs=%ld frees=%ld live=%zu badfree=%ld\n", l.allocs, l.frees, l.live.size(), l.bad_free);
